@@ -98,7 +98,35 @@ func c03(c *Ctx) {
 		key := fn.Obj.Type().(*types.Signature).Params().At(0)
 		subj := loopSubject(fn, key)
 		if subj == nil {
-			c.Undecided("R1", "trace|checkKeyRemain|accepted set = grammar", at(tx.M, fn.Pos()), "per-character variable not found")
+			// the character is used as the expression key[i] without a variable of its own
+			indexed := false
+			isSubj := func(e ast.Expr) bool {
+				ie, ok := unparen(e).(*ast.IndexExpr)
+				return ok && sameVar(tinfo, ie.X, key)
+			}
+			inspectNoLit(fn.Body(), func(n ast.Node) bool {
+				if e, ok := n.(ast.Expr); ok && isSubj(e) {
+					indexed = true
+				}
+				return true
+			})
+			if !indexed {
+				c.Undecided("R1", "trace|checkKeyRemain|accepted set = grammar", at(tx.M, fn.Pos()), "per-character variable not found")
+			} else {
+				consts := map[int64]bool{}
+				tx.intConstsIn(fn, map[*FuncInfo]bool{}, consts)
+				diff, n := charSetDiff(charPoints(consts, types.Typ[types.Uint8]), func(p int64) (bool, bool) {
+					pe2 := &predEval{ix: tx, extra: func(e ast.Expr) (constant.Value, bool) {
+						if isSubj(e) {
+							return constant.MakeInt64(p), true
+						}
+						return nil, false
+					}}
+					return pe2.loopAccepts(fn, nil, p)
+				}, func(p int64) bool { return lc(p) || dg(p) || p == '_' || p == '-' || p == '*' || p == '/' })
+				c.Check(diff == "", "R1", "trace|checkKeyRemain|accepted set = lcalpha / DIGIT / _ - * / ("+itoa(n)+" points over byte)", at(tx.M, fn.Pos()),
+					"equal on every representative point", "checkKeyRemain "+diff+" (a key with that character is accepted by ParseTraceState and re-injected)")
+			}
 		} else {
 			consts := map[int64]bool{}
 			tx.intConstsIn(fn, map[*FuncInfo]bool{}, consts)
@@ -511,12 +539,19 @@ func c03(c *Ctx) {
 			if call, ok := nd.(*ast.CallExpr); ok && callToDecl(pinfo, up)(call) && len(call.Args) == 3 {
 				w, _ := constInt(pinfo, call.Args[2])
 				widths = append(widths, w)
-				dsts = append(dsts, exprStr(call.Args[0]))
+				// the destination is named by the type of what is sliced (trace.TraceID / trace.SpanID / a byte array)
+				d := exprStr(call.Args[0])
+				if se, isS := unparen(call.Args[0]).(*ast.SliceExpr); isS {
+					if nm := namedTypeName(pinfo.TypeOf(se.X)); nm != "" {
+						d = nm
+					}
+				}
+				dsts = append(dsts, d)
 			}
 			return true
 		})
 		good := len(widths) == 4 && widths[0] == 2 && widths[1] == 32 && widths[2] == 16 && widths[3] == 2 &&
-			strings.Contains(dsts[1], "TraceID") && strings.Contains(dsts[2], "SpanID")
+			dsts[1] == "TraceID" && dsts[2] == "SpanID"
 		c.Check(good, "R2", "propagation|TraceContext.extract|fields version(2) trace-id(32) parent-id(16) flags(2) in order", at(px.M, fn.Pos()), strings.Join(dsts, ","), "traceparent field order/widths differ from the W3C format")
 	}
 
@@ -672,19 +707,39 @@ func c03(c *Ctx) {
 		c.Check(masked, "R5", "propagation|TraceContext.Inject|flags = TraceFlags() & FlagsSampled", at(px.M, fn.Pos()), "only the sampled bit is propagated", "unspecified flag bits are propagated")
 	}
 	if fn := c.Fn(px, "R5", "TraceContext.extract"); fn != nil {
-		masked := false
+		// every store into TraceFlags is the masked value (or the constant zero of a failure path); at least one is masked
+		masked, unmasked := false, false
 		inspectNoLit(fn.Body(), func(nd ast.Node) bool {
-			if as, ok := nd.(*ast.AssignStmt); ok && len(as.Lhs) == 1 && len(as.Rhs) == 1 {
-				if fv, _ := fieldOf(pinfo, as.Lhs[0]); fv != nil && fv.Name() == "TraceFlags" {
-					if be, ok := unparen(as.Rhs[0]).(*ast.BinaryExpr); ok && be.Op == token.AND {
-						if k := constObj(pinfo, be.Y); k != nil && k.Name() == "FlagsSampled" {
-							masked = true
-						}
+			as, ok := nd.(*ast.AssignStmt)
+			if !ok || len(as.Lhs) != len(as.Rhs) {
+				return true
+			}
+			for i, l := range as.Lhs {
+				fv, _ := fieldOf(pinfo, l)
+				if fv == nil || fv.Name() != "TraceFlags" {
+					continue
+				}
+				if z, isZ := constInt(pinfo, as.Rhs[i]); isZ && z == 0 {
+					continue
+				}
+				isMasked := false
+				if be, ok := unparen(as.Rhs[i]).(*ast.BinaryExpr); ok && be.Op == token.AND {
+					if k := constObj(pinfo, be.Y); k != nil && k.Name() == "FlagsSampled" {
+						isMasked = true
 					}
+					if k := constObj(pinfo, be.X); k != nil && k.Name() == "FlagsSampled" {
+						isMasked = true
+					}
+				}
+				if isMasked {
+					masked = true
+				} else {
+					unmasked = true
 				}
 			}
 			return true
 		})
+		masked = masked && !unmasked
 		c.Check(masked, "R5", "propagation|TraceContext.extract|TraceFlags = flags & FlagsSampled", at(px.M, fn.Pos()), "only the sampled bit is kept", "unknown flag bits survive extraction")
 		// version gates
 		g := px.FG(fn)
@@ -706,6 +761,31 @@ func c03(c *Ctx) {
 			}
 			return true
 		})
+		// variables that receive the parsed version unchanged (the result of a phase helper handed to the caller's variable)
+		verAlias := map[types.Object]bool{}
+		if verVar != nil {
+			verAlias[verVar] = true
+			for changed := true; changed; {
+				changed = false
+				inspectNoLit(fn.Body(), func(nd ast.Node) bool {
+					if as, ok := nd.(*ast.AssignStmt); ok && len(as.Lhs) == len(as.Rhs) {
+						for i, r := range as.Rhs {
+							if o := objOf(pinfo, r); o != nil && verAlias[o] {
+								if l := objOf(pinfo, as.Lhs[i]); l != nil && !verAlias[l] {
+									verAlias[l] = true
+									changed = true
+								}
+							}
+						}
+					}
+					return true
+				})
+			}
+		}
+		isVer := func(e ast.Expr) bool {
+			o := objOf(pinfo, e)
+			return o != nil && verAlias[o]
+		}
 		good := verVar != nil
 		if good {
 			for _, row := range []struct {
@@ -713,7 +793,7 @@ func c03(c *Ctx) {
 				rej bool
 			}{{255, true}, {254, false}, {0, false}} {
 				env := func(e ast.Expr) (constant.Value, bool) {
-					if sameVar(pinfo, e, verVar) {
+					if isVer(e) {
 						return constant.MakeInt64(row.v), true
 					}
 					if call, ok := e.(*ast.CallExpr); ok && callToDecl(pinfo, px.Func("extractPart"))(call) {
@@ -742,7 +822,7 @@ func c03(c *Ctx) {
 		for _, which := range []string{"trailing", "flags"} {
 			env := func(e ast.Expr) (constant.Value, bool) {
 				e = unparen(e)
-				if sameVar(pinfo, e, verVar) {
+				if isVer(e) {
 					return constant.MakeInt64(0), true
 				}
 				if be, ok := e.(*ast.BinaryExpr); ok {
